@@ -138,8 +138,10 @@ TypeOK == \A i \in 1..Len(frames) : ValidFrame(frames[i]) /\ Len(Encode(frames[i
 \* does a control frame sit between the fragments of a message?  (hazard FinOnControl)
 CtlInside(fs) == \E i, j \in 1..Len(fs) : i < j /\ IsDataOp(fs[i].op) /\ fs[i].fin = 0 /\ IsControlOp(fs[j].op)
                     /\ \A m \in (i+1)..j : ~(IsDataOp(fs[m].op) /\ fs[m].fin = 1)
+EmptyPing(fs) == \E i \in 1..Len(fs) : fs[i].op = OpPing /\ fs[i].pl = <<>>
 Hz(fs, h, kk, tl) == (IF CtlInside(CompleteFrames(fs, kk)) THEN {"FinOnControl"} ELSE {})
                      \cup (IF h \in NegNames /\ kk > Len(EncodeAll(fs)) + 9 THEN {"NegativeLength"} ELSE {})
+                     \cup (IF EmptyPing(CompleteFrames(fs, kk)) THEN {"EmptyPingNoPong"} ELSE {})
 
 \* the unmasked encoding of the pongs owed (what a server-role library writes back, byte for byte)
 Reply(r) == EncodeAll([i \in 1..Len(r.pongs) |-> Frame(1, OpPong, FALSE, <<>>, r.pongs[i])])
@@ -154,6 +156,9 @@ EmitRec(ro, fs, tl, h, kc) ==
         \* hostile: the hostile bytes are (partly) in the stream; trunc: the stream ends (or is closed) inside a frame or inside a message
         hostile |-> (tl # <<>> /\ kk > Len(EncodeAll(fs))),
         trunc |-> (~clean \/ r.open),
+        \* the stream ends right behind an empty ping: a client (which reads unmasked, i.e. two-byte frames) may take those two
+        \* bytes in front of the EOF for the end of the connection and skip the pong
+        lastempty |-> (LET cf == CompleteFrames(fs, kk) IN IF cf = <<>> THEN FALSE ELSE cf[Len(cf)].op = OpPing /\ cf[Len(cf)].pl = <<>>),
         hname |-> h, hz |-> Hz(fs, h, kk, tl)]
 Emit == PrintT(ToJson(EmitRec(role', frames', tail', hname', k')))
 View == vars
